@@ -6,6 +6,10 @@ import json, os
 ALL = ["C%02d" % i for i in range(1, 53)]
 
 CLAIMED = {
+ "C18": dict(
+   text="Kernel: for the 24 numeric types, Bool, Address and Path (identifier <= 3 bytes): the real Equal equals mathematical equality and Less/LessEqual/Greater/GreaterEqual the mathematical order for every operand pair (so ==, < are an equivalence / total order consistent with each other), and HashInput bytes are identical exactly for equal values (natives: two symbolic values; big integers: the payload decodes back to the value and has the canonical length), including the scratch-buffer vs allocation branch.",
+   note="Operands of equal type, full width (Int/UInt hash input: |x| < 2^128). Strings/characters (NFC), type values, enums, optionals, containers and the atree dictionary itself are outside the claim.",
+   design="3 / 5 C18"),
  "C06": dict(
    text="Entitlement authorization algebra over a universe of 3 entitlements: the real PermitsAccess/Equal, IntersectAccess and EntitlementMapAccess.Image/Domain run on every non-empty conjunction/disjunction set, the unauthorized access and every entitlement map with <= 2 relations (+ identity), against holder semantics: permits iff every holder of the reference authorization satisfies the requirement; intersections never grant more than either side; a mapped authorization promises only what every holder of the input really obtains; errors only for unrepresentable disjunctions.",
    note="Kernel of C06: structure is concrete on every path (the symbolic choices are forked), so the solver's work is constant evaluation of the path assertions; bound: 3 entitlements, <= 2 relations. The checker's member-access path and run-time authorization checks (programs) are outside.",
@@ -71,7 +75,6 @@ NA_REASON = {
  "C08": "subtyping over type graphs built from init-time pointer structures; symbolic execution degenerates to enumeration",
  "C09": "casts vs isInstance over values x types in both engines",
  "C10": "condition enforcement over program ASTs / desugaring",
- "C18": "not built yet",
  "C19": "NFC normalisation / grapheme segmentation are Unicode-table state machines in external libraries; no encodable oracle",
  "C20": "atree B+-tree containers, slab thresholds, storage reloads",
  "C22": "transaction histories over runtime + ledger", "C23": "transaction histories over runtime + ledger (slab health)",
